@@ -210,6 +210,37 @@ func runC03(c C03Case) (st Stats, err error) {
 				if !s.Replace(val, pos) {
 					v = violf("replace/result", "Replace at existing position %d failed", pos)
 				}
+			case "selftransfer":
+				var arg any = s
+				switch op.A % 3 {
+				case 1:
+					arg = MyStack(s)
+				case 2:
+					h := s
+					arg = &h
+				}
+				before := append([]any{}, m.Elems...)
+				growth = n > 0
+				ok := s.Transfer(arg)
+				after := readContent(s)
+				switch {
+				case k > 0 && len(after) > k:
+					v = violf("selftransfer/len>cap", "Transfer of the stack into itself (len %d, cap %d) gave Len()=%d", n, k, len(after))
+				case ok && len(after) != 2*n:
+					v = violf("selftransfer/true", "Transfer into itself returned true with Len %d (was %d)", len(after), n)
+				case !ok && len(after) != n:
+					v = violf("selftransfer/false-but-changed", "Transfer into itself returned false and changed Len from %d to %d", n, len(after))
+				}
+				if v == nil {
+					for j := range after {
+						if after[j] != before[j%max(n, 1)] {
+							v = violf("selftransfer/content", "Transfer into itself gave %v from %v", after, before)
+							break
+						}
+					}
+					m.Elems = after
+				}
+				st.Class("self-transfer")
 			case "rophase":
 				// while read-only nothing grows, and the capacity bookkeeping keeps telling the truth
 				s.SetReadOnly(true)
@@ -355,7 +386,7 @@ func genC03(t *rapid.T, tier Tier) C03Case {
 	c.Policy = rapid.IntRange(0, 3).Draw(t, "policy?") == 0
 	c.Amb = drawAmbient(t, false)
 	c.NoNest = rapid.IntRange(0, 3).Draw(t, "nonest") == 0
-	ops := []string{"push", "push", "fill", "fill", "insert", "insert", "pop", "pop", "remove", "reset", "transfer", "marshal", "replace", "reverse", "rophase"}
+	ops := []string{"push", "push", "fill", "fill", "insert", "insert", "pop", "pop", "remove", "reset", "transfer", "marshal", "replace", "reverse", "rophase", "selftransfer"}
 	n := rapid.IntRange(1, maxOps).Draw(t, "nops")
 	k := c.CapArg
 	if k < 1 {
@@ -380,6 +411,8 @@ func genC03(t *rapid.T, tier Tier) C03Case {
 			o.A = rapid.IntRange(0, 2).Draw(t, "surplus")
 		case "insert", "remove", "replace":
 			o.A = rapid.IntRange(0, 30).Draw(t, "a")
+		case "selftransfer":
+			o.A = rapid.IntRange(0, 2).Draw(t, "selfform")
 		case "transfer":
 			o.N = rapid.IntRange(0, k+2).Draw(t, "n")
 		case "marshal":
